@@ -810,3 +810,104 @@ def c14(run):
                        ["data-race freedom is observed by the Go race detector (not expressible in TLA+); a report inside the library is an event no specification action allows",
                         "the gated transport attributes a Read to the goroutine whose Write preceded it on that connection"],
                        kn, viol, confirm=mutex_confirm(run, trace))
+
+
+# ---------------------------------------------------------------- server stream family (C15, C16)
+def stream_confirm(run, trace):
+    lines = None
+    state = {"n": 0}
+
+    def confirm(v):
+        nonlocal lines
+        if lines is None:
+            lines = trace_lines(trace)
+        i = v["line"]
+        j = i
+        while j >= 0 and '"ev":"reset"' not in lines[j]:
+            j -= 1
+        if j < 0:
+            return "confirmed"
+        rs = json.loads(lines[j])
+        segs = []
+        k = j + 1
+        while k < len(lines) and '"ev":"reset"' not in lines[k]:
+            e = json.loads(lines[k])
+            if e["ev"] == "segment":
+                segs.append(len(e["bytes"]))
+            k += 1
+        case = {"op": "stream", "frames": rs["frames"], "segs": segs, "handler": rs["handler"], "e2e": rs["mode"] == "e2e"}
+        v["context"] = {"replay_case": case, "family": "stream", "trace_spec": "Trace_Stream"}
+        state["n"] += 1
+        if state["n"] > 10:
+            return "confirmed"
+        cp, tp = run.path("confirm-%d.cases" % state["n"]), run.path("confirm-%d.trace" % state["n"])
+        with open(cp, "w") as f:
+            f.write(json.dumps(case) + "\n")
+        run.drive("stream", cp, tp)
+        vs, _ = run.validate("Trace_Stream", "Trace_Stream.cfg", tp, shards=1)
+        return "confirmed" if any(x["verdict"] == v["verdict"] for x in vs) else "unreproduced"
+    return confirm
+
+
+def stream_pipeline(run, setname, rule, assumptions, mcs, prop_filter=None):
+    cases, trace = run.path("cases.ndjson"), run.path("trace.ndjson")
+    open(cases, "w").close()
+    for module, cfg, expect in mcs:
+        mc(run, module, cfg, expect_violation=expect)
+    ngen = gen_family(run, "Gen_Stream", setname, cases)
+    run.drive("stream", cases, trace, extra=["-mode", "direct"])
+    # end-to-end cases run in their own process: if malformed input or a panicking handler terminated the
+    # process, that is an observation about the library, not infrastructure trouble
+    t2 = run.path("trace-e2e.ndjson")
+    crashed = None
+    try:
+        run.drive("stream", cases, t2, extra=["-mode", "e2e"], timeout=1200)
+    except Infra as e:
+        if "panic:" in str(e) or "fatal error" in str(e):
+            crashed = str(e)
+        else:
+            raise
+    with open(trace, "a") as f:
+        if os.path.exists(t2):
+            f.write(open(t2).read())
+    verdicts, nev = run.validate("Trace_Stream", "Trace_Stream.cfg", trace, resync_key='"ev":"reset"')
+    harness_bad = [v for v in verdicts if v["verdict"].startswith("harness-")]
+    if harness_bad:
+        raise Infra("driver trouble: %s" % json.dumps(harness_bad[0])[:1500])
+    if crashed:
+        verdicts.append({"line": -1, "verdict": "server-process-terminated", "event": {"ev": "crash", "stderr": crashed[-1500:]}})
+    kn, viol = vlib.settle(run, verdicts, prop_filter=prop_filter)
+    ops = vlib.count_ops(trace, key="ev")
+    cov = {
+        "states": run.tlc_stats["states"], "transitions": run.tlc_stats["transitions"],
+        "traces_validated_against_impl": ops.get("reset", 0),
+        "evaluations": ops.get("reset", 0), "distinct_nontrivial": ops.get("segment", 0),
+        "rule": rule, "spec_generated_cases": ngen, "events_by_kind": ops,
+        "end_to_end_streams": count_where(trace, lambda e: e.get("ev") == "reset" and e.get("mode") == "e2e"),
+        "samples": vlib.sample_lines(trace, 3), "exhaustive": False,
+    }
+    return vlib.finish(run, "model_checking", cov, assumptions, kn, viol, confirm=stream_confirm(run, trace))
+
+
+@check("C15")
+def c15(run):
+    return stream_pipeline(
+        run, "c15",
+        rule="streams of 1..3 legal request frames of the 10 functions x cut sets (ALL cut sets of the 12-byte FC3 and 8-byte FC17 frames [thorough: of every frame <= 13 bytes], "
+             "<= 2 cuts for the others, <= 2 (3) cuts over two frames, <= 2 over three) fed to (*ModbusTCPAssembler).ReceiveRead segment by segment, and a sample through server.Server "
+             "over an in-memory listener; after EVERY segment the monitor requires output = in-order replies to exactly the completely delivered frames; non-trivial = every segment",
+        assumptions=["the handler is the deterministic device of ServerStream.tla (implemented in the harness, its answers are what the monitor computes independently)",
+                     "only streams of supported-function frames are judged, as the property quantifies"],
+        mcs=[("MC_ServerStream", "MC_ServerStream_Ref.cfg", False), ("MC_ServerStream", "MC_ServerStream_One.cfg", True), ("MC_ServerStream", "MC_ServerStream_Early.cfg", True)],
+        prop_filter=["C15", "C16"])
+
+
+@check("C16")
+def c16(run):
+    return stream_pipeline(
+        run, "c16",
+        rule="single request frames built by the SPECIFICATION: legal (10 functions), unsupported function codes, out-of-limit quantities/values, bodies truncated below the function's "
+             "fixed part with a consistent length field, inconsistent byte counts x handler behaviours {device response, typed error, generic error, panic, nil}; direct ReceiveRead and "
+             "end-to-end in a separate process with a second connection that must keep working; non-trivial = every segment",
+        assumptions=["a reply that is not sent is not judged (the statement constrains the replies that are sent); a panic escaping a direct ReceiveRead call with a panicking/nil handler is recorded, not judged"],
+        mcs=[], prop_filter=["C15", "C16"])
